@@ -94,4 +94,189 @@ theorem good_branch {c cC cS cR dC dS dR x} (gC : Good (c + 1) dC cC) (gS : Good
   have := (@List.perm_append_comm _ [(Label.anon c, x)] (dC ++ dS)).append_right dR
   simpa [List.append_assoc] using this
 
+/-- `Good` only looks at the label names -/
+theorem Good.congr_keys {c c' d d'} (g : Good c d c') (h : d'.map (·.1) = d.map (·.1)) : Good c d' c' := by
+  refine ⟨g.le, h ▸ g.nodup, ?_⟩
+  intro q hq
+  have : q.1 ∈ d.map (·.1) := h ▸ List.mem_map.mpr ⟨q, hq, rfl⟩
+  obtain ⟨q', hq', e⟩ := List.mem_map.mp this
+  obtain ⟨k, hk, h1, h2⟩ := g.rng q' hq'
+  exact ⟨k, by rw [← e]; exact hk, h1, h2⟩
+
+/-- arm labels as pseudo definitions -/
+def pseudo (ls : List Label) : List (Label × Nat) := ls.map fun l => (l, 0)
+
+theorem good_tests_vals {c cV cR dV dR lR x} (gV : Good (c + 1) dV cV) (gR : Good cV (dR ++ lR) cR) :
+    Good c ((dV ++ dR) ++ ((Label.anon c, x) :: lR)) cR := by
+  have g := (Good.single c x).seq (gV.seq gR)
+  refine g.perm ?_
+  have h1 : ([(Label.anon c, x)] ++ (dV ++ (dR ++ lR))).Perm ((dV ++ dR) ++ ([(Label.anon c, x)] ++ lR)) := by
+    have := (@List.perm_append_comm _ [(Label.anon c, x)] (dV ++ dR)).append_right lR
+    simpa [List.append_assoc] using this
+  simpa using h1
+
+theorem good_tests_default {c cR dR lR x} (gR : Good (c + 1) (dR ++ lR) cR) :
+    Good c (dR ++ ((Label.anon c, x) :: lR)) cR := by
+  have g := (Good.single c x).seq gR
+  refine g.perm ?_
+  have := (@List.perm_append_comm _ [(Label.anon c, x)] dR).append_right lR
+  simpa [List.append_assoc] using this
+
+/-- what the arms phase defines: one address per consumed arm label, plus the bodies' own labels -/
+def ArmsGood (c : Nat) (ls : List Label) (n : Nat) (o : Out) : Prop :=
+  ∃ bd addrs, Good c bd o.c ∧ addrs.map (·.1) = ls.take n ∧ o.defs.Perm (addrs ++ bd)
+
+theorem armsGood_nil (c : Nat) (ls : List Label) (n : Nat) (h : ls = [] ∨ n = 0) : ArmsGood c ls n ⟨[], [], c⟩ := by
+  refine ⟨[], [], Good.nil, ?_, by simp⟩
+  rcases h with rfl | rfl <;> simp
+
+theorem armsGood_cons {c cB : Nat} {l : Label} {ls : List Label} {n wp : Nat} {dB : List (Label × Nat)} {R : Out} {code : List Instr}
+    (gB : Good c dB cB) (gR : ArmsGood cB ls n R) :
+    ArmsGood c (l :: ls) (n + 1) ⟨code, (l, wp) :: dB ++ R.defs, R.c⟩ := by
+  obtain ⟨bd, addrs, g, hk, hp⟩ := gR
+  refine ⟨dB ++ bd, (l, wp) :: addrs, gB.seq g, by simp [hk], ?_⟩
+  simp only [List.cons_append]
+  refine List.Perm.cons _ ?_
+  have h1 : (dB ++ R.defs).Perm (dB ++ (addrs ++ bd)) := List.Perm.append_left _ hp
+  refine h1.trans ?_
+  have := (@List.perm_append_comm _ dB addrs).append_right bd
+  simpa [List.append_assoc] using this
+
+theorem good_match {c : Nat} {dS dT : List (Label × Nat)} {cS cT : Nat} {ls : List Label} {A : Out} {n x : Nat}
+    (gS : Good c dS cS) (gT : Good (cS + 1) (dT ++ pseudo ls) cT) (gA : ArmsGood cT ls n A) (hn : ls.length ≤ n) :
+    Good c (dS ++ dT ++ A.defs ++ [(Label.anon cS, x)]) A.c := by
+  obtain ⟨bd, addrs, g, hk, hp⟩ := gA
+  have hk' : addrs.map (·.1) = ls := by rw [hk, List.take_of_length_le hn]
+  have gT' : Good (cS + 1) (dT ++ addrs) cT := gT.congr_keys (by simp [pseudo, hk', Function.comp_def])
+  have gall := gS.seq ((Good.single cS x).seq ((gT'.seq g)))
+  refine gall.perm ?_
+  have h1 : (dS ++ dT ++ A.defs ++ [(Label.anon cS, x)]).Perm (dS ++ dT ++ (addrs ++ bd) ++ [(Label.anon cS, x)]) :=
+    List.Perm.append_right _ (List.Perm.append_left _ hp)
+  refine List.Perm.trans ?_ h1.symm
+  have h2 := (@List.perm_append_comm _ [(Label.anon cS, x)] (dT ++ addrs ++ bd)).append_left dS
+  simpa [List.append_assoc] using h2
+
+theorem testsE_len (sd : Defs) : ∀ (arms : List (Pat × Expr)) (wp c : Nat), (compileTestsE sd wp c arms).2.length = arms.length
+  | [], _, _ => by simp [compileTestsE]
+  | (.values vs, _) :: rest, wp, c => by simp [compileTestsE, testsE_len sd rest]
+  | (.default, _) :: rest, wp, c => by simp [compileTestsE, testsE_len sd rest]
+theorem testsS_len (sd : Defs) : ∀ (arms : List (Pat × List Stmt)) (wp c : Nat), (compileTestsS sd wp c arms).2.length = arms.length
+  | [], _, _ => by simp [compileTestsS]
+  | (.values vs, _) :: rest, wp, c => by simp [compileTestsS, testsS_len sd rest]
+  | (.default, _) :: rest, wp, c => by simp [compileTestsS, testsS_len sd rest]
+
+theorem good_all (sd : Defs) :
+    (∀ wp c e, Good c (compileExpr sd wp c e).defs (compileExpr sd wp c e).c) ∧
+    (∀ (wp c : Nat) (end_ : Label) (ls : List Label) (arms : List (Pat × Expr)),
+      ArmsGood c ls arms.length (compileArmsE sd wp c end_ ls arms)) ∧
+    (∀ (wp c : Nat) (arms : List (Pat × Expr)),
+      Good c ((compileTestsE sd wp c arms).1.defs ++ pseudo (compileTestsE sd wp c arms).2) (compileTestsE sd wp c arms).1.c) ∧
+    (∀ (wp c : Nat) (arm : Label) (vs : List Expr),
+      Good c (compilePatVals sd wp c arm vs).defs (compilePatVals sd wp c arm vs).c) ∧
+    (∀ wp c ss, Good c (compileStmts sd wp c ss).defs (compileStmts sd wp c ss).c) ∧
+    (∀ wp c s, Good c (compileStmt sd wp c s).defs (compileStmt sd wp c s).c) ∧
+    (∀ wp c end_ brs, Good c (compileBranches sd wp c end_ brs).defs (compileBranches sd wp c end_ brs).c) ∧
+    (∀ (wp c : Nat) (end_ : Label) (ls : List Label) (arms : List (Pat × List Stmt)),
+      ArmsGood c ls arms.length (compileArmsS sd wp c end_ ls arms)) ∧
+    (∀ (wp c : Nat) (arms : List (Pat × List Stmt)),
+      Good c ((compileTestsS sd wp c arms).1.defs ++ pseudo (compileTestsS sd wp c arms).2) (compileTestsS sd wp c arms).1.c) ∧
+    (∀ wp c es, Good c (compileArgs sd wp c es).defs (compileArgs sd wp c es).c) ∧
+    (∀ wp c fs, Good c (compileFields sd wp c fs).defs (compileFields sd wp c fs).c) := by
+  apply compileExpr.mutual_induct sd
+  case case12 => intro wp c f args i hi ih; simp only [compileExpr, hi]; exact ih
+  case case13 => intro wp c f args hi ih; simp only [compileExpr, hi]; exact ih
+  case case34 =>
+    intro wp c scrut arms S end_ T ihS ihT ihA
+    simp only [compileExpr]
+    exact good_match ihS ihT ihA (Nat.le_of_eq (testsE_len sd arms _ _))
+  case case37 =>
+    intro wp c scrut arms S end_ T ihS ihT ihA
+    simp only [compileStmt]
+    exact good_match ihS ihT ihA (Nat.le_of_eq (testsS_len sd arms _ _))
+  case case38 =>
+    intro wp c brs hasElse els end_ B ihB ihS
+    simp only [compileStmt]
+    cases hasElse with
+    | true => simp only [if_true]; exact good_first ihB ihS
+    | false =>
+      simp only [Bool.false_eq_true, if_false, List.append_nil]
+      have := good_first (x := wp + (compileBranches sd wp (c + 1) (Label.anon c) brs).code.length + 0) ihB (Good.nil (c := (compileBranches sd wp (c + 1) (Label.anon c) brs).c))
+      simpa using this
+  case case44 => intro wp c arm e es w hw ih; simp only [compilePatVals, hw]; exact ih
+  case case45 => intro wp c arm e es hw E ihE ihR; simp only [compilePatVals, hw]; exact Good.seq ihE ihR
+  case case51 =>
+    intro t wp c end_ ls h
+    cases ls with
+    | nil => cases t <;> (simp only [compileArmsE]; exact armsGood_nil c [] _ (Or.inl rfl))
+    | cons l ls =>
+      cases t with
+      | nil => simp only [compileArmsE]; exact armsGood_nil c _ _ (Or.inr rfl)
+      | cons pb rest => exact (h l ls pb.1 pb.2 rest rfl rfl).elim
+  case case56 =>
+    intro t wp c end_ ls h
+    cases ls with
+    | nil => cases t <;> (simp only [compileArmsS]; exact armsGood_nil c [] _ (Or.inl rfl))
+    | cons l ls =>
+      cases t with
+      | nil => simp only [compileArmsS]; exact armsGood_nil c _ _ (Or.inr rfl)
+      | cons pb rest => exact (h l ls pb.1 pb.2 rest rfl rfl).elim
+  all_goals (intros; first | trivial | skip)
+  all_goals (simp only [compileExpr, compileArgs, compileFields, compileStmt, compileStmts, compileBranches, compilePatVals,
+    compileTestsE, compileTestsS, compileArmsE, compileArmsS, pseudo, List.map_cons, List.map_nil, List.append_nil, List.length_cons, List.length_nil])
+  all_goals (first
+    | exact Good.nil
+    | assumption
+    | exact Good.seq ‹_› ‹_›
+    | exact good_and ‹_› ‹_›
+    | exact good_or ‹_› ‹_›
+    | exact good_two_first ‹_› ‹_›
+    | exact good_ite ‹_› ‹_› ‹_›
+    | exact good_after ‹_› ‹_›
+    | exact good_first ‹_› ‹_›
+    | exact good_branch ‹_› ‹_› ‹_›
+    | exact good_tests_vals ‹_› ‹_›
+    | exact good_tests_default ‹_›
+    | exact armsGood_cons ‹_› ‹_›
+    | skip)
+
+/-- the labels of a list of compiled functions: one `fn` label per function plus distinct anonymous ones -/
+theorem funs_good (sd : Defs) : ∀ (funs : List FunDef) (wp c : Nat),
+    ∃ bd fl, Good c bd (compileFuns sd wp c funs).c ∧ fl.map (·.1) = funs.map (fun fd => Label.fn fd.name) ∧
+      (compileFuns sd wp c funs).defs.Perm (fl ++ bd)
+  | [], wp, c => ⟨[], [], Good.nil, rfl, by simp [compileFuns]⟩
+  | fd :: rest, wp, c => by
+    obtain ⟨bd, fl, g, hk, hp⟩ := funs_good sd rest (wp + (compileFun sd wp c fd).code.length) (compileFun sd wp c fd).c
+    have gB := (good_all sd).2.2.2.2.1 (wp + ((fd.params.reverse.map fun (x : Nat × Ty) => (Instruction.Def x.1 : Instr)) ++ [Instruction.SaveSP]).length) c fd.body
+    refine ⟨(compileStmts sd (wp + ((fd.params.reverse.map fun (x : Nat × Ty) => (Instruction.Def x.1 : Instr)) ++ [Instruction.SaveSP]).length) c fd.body).defs ++ bd,
+      (Label.fn fd.name, wp) :: fl, ?_, by simp [hk], ?_⟩
+    · simp only [compileFuns]
+      exact gB.seq (by simpa [compileFun] using g)
+    · simp only [compileFuns, compileFun, List.cons_append]
+      refine List.Perm.cons _ ?_
+      have h1 := List.Perm.append_left (compileStmts sd (wp + ((fd.params.reverse.map fun (x : Nat × Ty) => (Instruction.Def x.1 : Instr)) ++ [Instruction.SaveSP]).length) c fd.body).defs hp
+      refine List.Perm.trans (by simpa [compileFun] using h1) ?_
+      have := (@List.perm_append_comm _ (compileStmts sd (wp + ((fd.params.reverse.map fun (x : Nat × Ty) => (Instruction.Def x.1 : Instr)) ++ [Instruction.SaveSP]).length) c fd.body).defs fl).append_right bd
+      simpa [List.append_assoc] using this
+
+/-- **the `define_label` duplicate check never fires on model-compiled code**: with distinct
+function names all labels of the program are distinct -/
+theorem labels_never_collide (sd : Defs) (funs : List FunDef) (hn : (funs.map (·.name)).Nodup) :
+    labelsDistinct (compileUnresolved sd funs).defs = true := by
+  obtain ⟨bd, fl, g, hk, hp⟩ := funs_good sd funs 1 0
+  have key : ((compileFuns sd 1 0 funs).defs.map (·.1)).Nodup := by
+    rw [(hp.map _).nodup_iff, List.map_append, List.nodup_append]
+    refine ⟨?_, g.nodup, ?_⟩
+    · rw [hk]
+      have : (funs.map fun fd => Label.fn fd.name) = (funs.map (·.name)).map Label.fn := by simp
+      rw [this]
+      exact List.Nodup.map (fun a b h => by cases h; rfl) hn
+    · intro a ha b hb hab
+      rw [hk] at ha
+      obtain ⟨fd, _, rfl⟩ := List.mem_map.mp ha
+      obtain ⟨q, hq, rfl⟩ := List.mem_map.mp hb
+      obtain ⟨k, hk', _, _⟩ := g.rng q hq
+      rw [hk'] at hab
+      cases hab
+  simpa [labelsDistinct, compileUnresolved] using key
+
 end AranyaV.Lang
